@@ -96,6 +96,12 @@ CATALOGUE = [
     ('C05-d', 'C05', 'circus/watcher.py',
      "        if self._status != \"starting\":\n",
      "        if False:\n"),
+    ('C10-d', 'C10', 'circus/arbiter.py',
+     "    @synchronized(\"arbiter_reload_config\")\n    @gen.coroutine\n    def reload_from_config",
+     "    @gen.coroutine\n    def reload_from_config"),
+    ('C10-e', 'C10', 'circus/arbiter.py',
+     "    @synchronized(\"arbiter_add_watcher\")\n    def add_watcher",
+     "    def add_watcher"),
     ('C07-a', 'C07', 'circus/sockets.py',
      "        if hasattr(self, 'set_inheritable'):\n            self.set_inheritable(True)",
      "        if hasattr(self, 'set_inheritable'):\n            self.set_inheritable(False)"),
